@@ -12,6 +12,11 @@ package http
 // hex() and quote() (all of which return text/integers).
 
 import (
+	"io"
+	"sync"
+	"time"
+	nethttp "net/http"
+	"github.com/rqlite/rqlite/v10/proxy"
 	"encoding/base64"
 	"encoding/hex"
 	"encoding/json"
@@ -870,6 +875,157 @@ func TestVerifC30(t *testing.T) {
 				rep.Count("assoc-row-with-repeated-column-name")
 			}
 			rep.Case(fmt.Sprintf("assoc:%v:%v:%v", cols, storeds, blobArray), true)
+		}
+	}
+
+	// ---- the marshalled result is a VALUE: it must not change when something else is marshalled later ----
+	// (every response body is what Encoder.JSONMarshal returns; a result that aliases shared memory is
+	// overwritten by the next response encoded anywhere in the process)
+	{
+		var inputs []*command.QueryRows
+		for k := 0; k < 40; k++ {
+			inputs = append(inputs, &command.QueryRows{
+				Columns: []string{"n", "s", "b", "f"}, Types: []string{"integer", "text", "blob", "real"},
+				Values: []*command.Values{{Parameters: []*command.Parameter{
+					{Value: &command.Parameter_I{I: int64(1000 + k)}},
+					{Value: &command.Parameter_S{S: strings.Repeat(fmt.Sprintf("row-%d/", k), 1+k%7*9)}},
+					{Value: &command.Parameter_Y{Y: []byte{byte(k), 0, 255, byte(k * 3)}}},
+					{Value: &command.Parameter_D{D: float64(k) + 0.5}},
+				}}}})
+		}
+		if rows, err := dbx.QueryStringStmt("SELECT id, u, i, r, t, b FROM v ORDER BY id LIMIT 30"); err == nil {
+			inputs = append(inputs, rows...)
+		}
+		forms := []encoding.Encoder{{}, {Associative: true}, {BlobsAsByteArrays: true}, {Associative: true, BlobsAsByteArrays: true}}
+		type held struct {
+			b    []byte // what JSONMarshal returned, kept as returned
+			copy string // its content at the moment it was returned
+			what string
+		}
+		var all []held
+		for fi := range forms {
+			for k, in := range inputs {
+				b, err := forms[fi].JSONMarshal([]*command.QueryRows{in})
+				if err != nil {
+					continue // (a stored infinity: recorded finding)
+				}
+				all = append(all, held{b: b, copy: string(b), what: fmt.Sprintf("form %d input %d", fi, k)})
+				rep.Count("marshalled-result-held")
+			}
+		}
+		changed := 0
+		for _, h := range all {
+			if string(h.b) != h.copy {
+				changed++
+				if changed == 1 {
+					rep.Fail("marshalled-result-changed-afterwards", fmt.Sprintf("the bytes JSONMarshal returned for %s read %.80q when returned and %.80q after %d more results had been marshalled", h.what, h.copy, string(h.b), len(all)),
+						map[string]interface{}{"what": h.what})
+				}
+			}
+		}
+		rep.Case("marshalled results held while the others are marshalled", true)
+		// the same from 8 goroutines at once: every result must be the encoding of ITS input
+		if changed == 0 {
+			want := map[string]string{} // form/input -> encoding (from the sequential pass)
+			for _, h := range all {
+				want[h.what] = h.copy
+			}
+			var wg sync.WaitGroup
+			bad := make([]string, 8)
+			for g := 0; g < 8; g++ {
+				wg.Add(1)
+				go func(g int) {
+					defer wg.Done()
+					var mine []held
+					for rnd := 0; rnd < 6; rnd++ {
+						for k := range inputs {
+							kk := (k*7 + g*13 + rnd) % len(inputs)
+							fi := (g + rnd + k) % len(forms)
+							b, err := forms[fi].JSONMarshal([]*command.QueryRows{inputs[kk]})
+							if err != nil {
+								continue
+							}
+							mine = append(mine, held{b: b, what: fmt.Sprintf("form %d input %d", fi, kk)})
+						}
+					}
+					for _, h := range mine {
+						if w, ok := want[h.what]; ok && string(h.b) != w && bad[g] == "" {
+							bad[g] = fmt.Sprintf("goroutine %d: %s came back as %.80q, want %.80q", g, h.what, string(h.b), w)
+						}
+					}
+				}(g)
+			}
+			wg.Wait()
+			rep.Count("marshalled-concurrently-by-8-goroutines")
+			for _, m := range bad {
+				if m != "" {
+					rep.Fail("marshalled-result-changed-afterwards:concurrent", m, nil)
+					break
+				}
+			}
+		}
+	}
+
+	// ---- … and through the real HTTP service: concurrent clients each get THEIR OWN rows back ----
+	{
+		m := &MockStore{}
+		cl := &mockClusterService{}
+		m.queryFn = func(qr *command.QueryRequest) ([]*command.QueryRows, uint64, error) {
+			n := int64(-1)
+			if len(qr.Request.Statements) == 1 {
+				fmt.Sscanf(qr.Request.Statements[0].Sql, "SELECT %d", &n)
+			}
+			return []*command.QueryRows{{Columns: []string{"n", "pad"}, Types: []string{"integer", "text"},
+				Values: []*command.Values{{Parameters: []*command.Parameter{
+					{Value: &command.Parameter_I{I: n}},
+					{Value: &command.Parameter_S{S: strings.Repeat(fmt.Sprintf("<%d>", n), 200)}},
+				}}}}}, 0, nil
+		}
+		svc := New("127.0.0.1:0", m, cl, proxy.New(m, cl), nil)
+		if err := svc.Start(); err != nil {
+			rep.Count("http-service-section-skipped:cannot-start")
+		} else {
+			host := fmt.Sprintf("http://%s", svc.Addr().String())
+			var wg sync.WaitGroup
+			bad := make([]string, 8)
+			for g := 0; g < 8; g++ {
+				wg.Add(1)
+				go func(g int) {
+					defer wg.Done()
+					client := &nethttp.Client{Timeout: 60 * time.Second}
+					for k := 0; k < 25; k++ {
+						n := g*1000 + k
+						resp, err := client.Get(fmt.Sprintf("%s/db/query?q=SELECT%%20%d", host, n))
+						if err != nil {
+							continue // (load: not judged)
+						}
+						body, _ := io.ReadAll(resp.Body)
+						resp.Body.Close()
+						var dec struct {
+							Results []struct {
+								Values [][]any `json:"values"`
+							} `json:"results"`
+						}
+						pad := strings.Repeat(fmt.Sprintf("<%d>", n), 200)
+						if err := json.Unmarshal(body, &dec); err != nil || len(dec.Results) != 1 || len(dec.Results[0].Values) != 1 ||
+							len(dec.Results[0].Values[0]) != 2 || fmt.Sprint(dec.Results[0].Values[0][0]) != fmt.Sprint(float64(n)) || dec.Results[0].Values[0][1] != pad {
+							if bad[g] == "" {
+								bad[g] = fmt.Sprintf("client %d asked for %d and received %.120q", g, n, string(body))
+							}
+						}
+					}
+				}(g)
+			}
+			wg.Wait()
+			svc.Close()
+			rep.Count("http-service:8-concurrent-clients")
+			rep.Case("8 concurrent clients of /db/query", true)
+			for _, mm := range bad {
+				if mm != "" {
+					rep.Fail("response-carries-another-requests-values", mm, nil)
+					break
+				}
+			}
 		}
 	}
 
